@@ -216,7 +216,7 @@ pub fn check(ctx: &mut Ctx) {
 }
 
 /// strings shown as `[default: …]` by --help
-fn help_defaults() -> Result<Vec<String>, String> {
+pub fn help_defaults() -> Result<Vec<String>, String> {
     let out = run_cli(&["--help".to_string()], None, &[], None)?;
     let text = String::from_utf8_lossy(&out.stdout).to_string();
     let mut v = vec![];
